@@ -495,10 +495,12 @@ fn main() {
         if had_violation {
             break;
         }
-        // do not start a level that cannot finish: a level costs ~13x the
-        // previous one (about a third of that when the effort drops to light)
+        // thorough tier: do not start a level that cannot finish — a level costs
+        // ~13x the previous one (about a third of that when the effort drops to
+        // light). The quick tier always runs its fixed bounds; its budget is
+        // only a safety net.
         let level_s = run.elapsed() - level_started;
-        if depth < max_depth {
+        if depth < max_depth && run.tier == vcore::Tier::Thorough {
             let factor = if effort_for(depth + 1) < effort_for(depth) { 5.0 } else { 14.0 };
             if run.elapsed() + level_s * factor > run.budget_s {
                 run.cap_hit(&format!(
